@@ -1,0 +1,9 @@
+//go:build verif
+
+package maurl
+
+// Test-only accessors for the verification harness (build tag verif).
+
+func VerifPathVal(b []byte) error           { return pathVal(b) }
+func VerifPathStB(s string) ([]byte, error) { return pathStB(s) }
+func VerifPathBtS(b []byte) (string, error) { return pathBtS(b) }
